@@ -4,6 +4,9 @@ import sys, os, json, shutil, glob
 rnd, rk, src = sys.argv[1], sys.argv[2], sys.argv[3]
 kinds = {"1": "mixed refactoring PR", "2": "signature reshaping", "3": "method objects", "4": "interface indirection",
          "5": "generic / table-driven helpers", "6": "defensive accessors and named conditions"}
+if rnd == "6":
+    kinds = {"1": "optional diagnostics hook, off by default", "2": "read/write lock or atomic API refinement", "3": "lookup tables, switches and named predicates",
+             "4": "provably equivalent fast paths", "5": "additive API ergonomics", "6": "test-support seams"}
 if rnd == "5":
     kinds = {"1": "modernisation and idiom clean-up", "2": "additive observability-only feature", "3": "performance-motivated equivalent edits",
              "4": "defensive programming", "5": "code organisation", "6": "error and context plumbing clean-up"}
